@@ -320,16 +320,23 @@ theorem checkMergeRenumber_iff (fill : α → α) (nat : Nat → α) (ins : List
     exact ⟨(forall2B_iff _ _ ins bs (fun x _ b _ => blockOkB_iff eqv heqv (fillIf fill x.1) x.2 b)).2 h1,
       (pairwiseB_iff _ _ (disjointObjB_iff eqv heqv) bs).2 h2, (hids _ _).2 h3⟩
 
-theorem checkMergeDropDup_iff (fill : α → α) (ins : List (Bool × Motl α)) (out : Motl α) :
-    (∃ cs, checkMergeDropDup eqv fill cs ins out = true) ↔ MergeDropDupOK fill ins out := by
-  unfold MergeDropDupOK
-  refine exists_congr (fun cs => ?_)
+/-- the clauses decided for ONE given certificate `cs` -/
+theorem checkMergeDropDup_cs_iff (fill : α → α) (cs : List α) (ins : List (Bool × Motl α)) (out : Motl α) :
+    checkMergeDropDup eqv fill cs ins out = true ↔
+      (cs.length = ins.length ∧ ((shiftedInputs fill cs ins).map (·.2)).Pairwise DisjointObj
+        ∧ (∀ q ∈ out, ∃ x ∈ shiftedInputs fill cs ins, ∃ p ∈ x.2, Same (fillIf fill x.1) p q)
+        ∧ DropDupOK fill .subtomo_id .score false ((shiftedInputs fill cs ins).map (·.2)).flatten out) := by
   have hd := checkDropDup_iff eqv heqv fill Field.subtomo_id Field.score false
     ((shiftedInputs fill cs ins).map (·.2)).flatten out
   unfold checkDropDup at hd
   simp only [checkMergeDropDup, mergeDropDupClauses, List.all_append, List.all_cons, List.all_nil, Bool.and_true,
     Bool.and_eq_true, hd, beq_iff_eq, pairwiseB_iff _ _ (disjointObjB_iff eqv heqv)]
   simp only [List.all_eq_true, List.any_eq_true, sameB_iff eqv heqv, Bool.false_eq_true, false_or, Same, and_assoc]
+
+theorem checkMergeDropDup_iff (fill : α → α) (ins : List (Bool × Motl α)) (out : Motl α) :
+    (∃ cs, checkMergeDropDup eqv fill cs ins out = true) ↔ MergeDropDupOK fill ins out := by
+  unfold MergeDropDupOK
+  exact exists_congr (fun cs => checkMergeDropDup_cs_iff eqv heqv fill cs ins out)
 
 theorem sameB_skip_iff (h : Field) (p q : Particle α) :
     sameB eqv (fun v => v) (fun g => g == h) p q = true ↔ ∀ f : Field, f ≠ h → q.get f = p.get f := by
